@@ -12,6 +12,13 @@
 (*     Each step applies the logged command with EdApply and must reach    *)
 (*     the observed buffer; at the end the buffer must be `new`            *)
 (*     (TargetReached) and equal to the whole-script observation.          *)
+(*     Size-stressed executions (files of 10^4 / 10^5 lines) are logged at  *)
+(*     the level of RUNS: every id of old stands for a run of distinct     *)
+(*     concrete lines, addresses in the real script are prefix sums, and   *)
+(*     the harness collapses the observed lines run by run to ids before   *)
+(*     logging (an incomplete run is logged as the impossible id 0).       *)
+(*     EdApply is independent of what an element stands for, so the same   *)
+(*     steps validate them (see Structure in EdScript.tla).                *)
 (*  [kind |-> "corrupt", lines, res]                                       *)
 (*     lines: a script as line tokens with one syntactic corruption; res:  *)
 (*     "ok" or the name of the exception raised.  The parser automaton     *)
